@@ -153,8 +153,8 @@ def bad_rows(rows):
     return [r for r in rows if any(isinstance(x, str) for x in r)]
 
 # ------------------------------------------------------------------ the run
-def one_round(res, pid, seed, n, rnd):
-    binary = C.build_harness()
+def one_round(res, pid, seed, n, rnd, race=False):
+    binary = C.build_harness(race=race)
     data, _ = C.run_harness(binary, ['c20', '-seed', str(seed), '-n', str(n)], pid, 'c20_%d.json' % rnd)
     strings = data['strings']
     # ---- glue
@@ -267,6 +267,17 @@ def run(ctx):
     rounds, n = (1, 200) if tier == 'quick' else (6, 600)
     for rnd in range(rounds):
         one_round(res, pid, seed * 1000 + rnd, n, rnd)
+    if tier == 'thorough':
+        # TESTING, not proof: the same scenarios once more on a -race build (concurrent publishes, watcher goroutines,
+        # pumps); a detected race makes the harness exit non-zero, which fails the check
+        try:
+            one_round(res, pid, seed * 1000 + 77, 300, 77, race=True)
+            res.extra['race_build'] = 'scenarios re-run on a -race build: no data race reported (testing)'
+        except C.CheckError as e:
+            if 'DATA RACE' in str(e):
+                res.violations.append(dict(signature='C20/data-race', what='the Go race detector reported a data race in a decorator scenario', case=str(e)[-3000:]))
+            else:
+                raise
     res.rule = ('random decorator stacks of depth 0..3 (transform / delay with generator on-off and AllowNoDelay on-off / Prometheus metrics, incl. the same metrics decorator twice or three times and both '
                 'nesting orders) around a scripted publisher (answers per call, Close error) resp. subscriber; batches of 0/1/n objects re-published across calls, delay metadata present / empty / '
                 'only one key / garbage, context delays For/Until (zero value, past, now, far future, other zone), generator answers and errors at any index; every 5th publisher case runs its calls '
